@@ -48,9 +48,14 @@ def setup(k):
     os.makedirs(w)
     r = sh(["git", "-C", "/repo", "worktree", "add", "-q", "--detach", w + "/repo", "HEAD"])
     assert r.returncode == 0, r.stderr
-    r = sh("rsync -a --exclude .git --exclude 'harness/fuzz/target' --exclude replays /verif/ %s/verif/" % w)
+    # the COMMITTED state of /verif (edits in progress must not leak into a run), plus the
+    # build cache for a warm start
+    os.makedirs(w + "/verif")
+    r = sh("git -C /verif archive HEAD | tar -x -C %s/verif" % w)
     assert r.returncode == 0, r.stderr
-    os.remove(w + "/verif/espada-src")
+    sh("rsync -a --exclude 'build.*.log' /verif/harness/target/ %s/verif/harness/target/" % w)
+    if os.path.lexists(w + "/verif/espada-src"):
+        os.remove(w + "/verif/espada-src")
     os.symlink(w + "/repo", w + "/verif/espada-src")
     return w
 
